@@ -477,7 +477,7 @@ func compareQPRAgg(a simenv.AggReq, got *seq.AggregatableSamples, want *model.Ag
 			if (a.Field != "big" && gb.Sum != wb.Sum) || gb.Min != wb.Min || gb.Max != wb.Max {
 				return fmt.Sprintf("bin %q sum/min/max %v/%v/%v, model %v/%v/%v", k, gb.Sum, gb.Min, gb.Max, wb.Sum, wb.Min, wb.Max)
 			}
-			if a.Func == "quantile" && len(wb.Samples) <= 8096 {
+			if a.Func == "quantile" && len(wb.Samples) <= seq.VerifMaxHistogramSamples() {
 				gs := append([]float64(nil), gb.Samples...)
 				sort.Float64s(gs)
 				if len(gs) != len(wb.Samples) {
@@ -525,7 +525,7 @@ func compareQPRAgg(a simenv.AggReq, got *seq.AggregatableSamples, want *model.Ag
 				exp = wb.Sum / float64(wb.Total)
 			}
 		case "quantile":
-			if len(wb.Samples) == 0 || len(wb.Samples) > 8096 || len(a.Quantiles) == 0 {
+			if len(wb.Samples) == 0 || len(wb.Samples) > seq.VerifMaxHistogramSamples() || len(a.Quantiles) == 0 {
 				continue
 			}
 			q := a.Quantiles[0]
